@@ -20,19 +20,20 @@ theorem installed_sepfree : SepFree installedTag :=
 theorem tags_equiv_installed : C14_statement installedTag := tags_equiv installed_sepfree
 
 theorem tags_roundtrip_installed (c : Constraint)
-    (hv : validConstraint installedTag c = true) (hne : ∀ o ∈ c, o ≠ []) :
+    (hv : validConstraint installedTag c = true) :
     parseConstraint installedTag (body c ++ ['\n']) = some c :=
-  (tags_roundtrip installed_sepfree c hv hne).2.2
+  (tags_roundtrip installed_sepfree c hv).2.2
 
 /-- Non-vacuity on non-ASCII letters and digits, and the separators. -/
 example : validTerm installedTag "é٣_.x".toList = true ∧ validTerm installedTag "!日本".toList = true ∧
     validTerm installedTag "a-b".toList = false ∧ validTerm installedTag "a b".toList = false := by
   decide +kernel
 
-/-- F8 at the installed predicate. -/
+/-- F8 / F8b regression at the installed predicate: empty options and empty
+constraint lines are invalid. -/
 theorem f8_installed :
-    validate installedTag [[[['a']], []]] = true ∧ evaluate installedTag (fun _ => false) [[[['a']], []]] = true ∧
-    toolchainSelects (fun _ => false) (format installedTag [[[['a']], []]]) = some false := by
+    validate installedTag [[[['a']], []]] = false ∧ validate installedTag [[]] = false ∧
+    validate installedTag [[[['a']]]] = true := by
   decide +kernel
 
 end Avo.Tags
